@@ -4,7 +4,7 @@ From Coq Require Import NArith ZArith List Reals.
 From Flocq Require Import Core.
 From KT Require Import Gen.Generated Gen.Alphabet Gen.FactsBase Gen.FactTableKmer Model.Kmer Model.Ops Model.Rows Model.Flt.
 From KT Require Import Proof.Oligo Proof.RowsProof Proof.FmtProof Proof.LayoutProof.
-From KT Require Import Model.Show Proof.FmtError.
+From KT Require Import Model.Show Proof.FmtError Proof.CleanCount.
 Import ListNotations.
 Open Scope N_scope.
 
@@ -50,6 +50,12 @@ Theorem C04_printed_fraction_correct_to_six_decimals :
     (Rabs (IZR (Z.of_N n) / 1000000 - IZR (Z.of_nat c) / IZR (Z.of_nat (Nat.max 1 t))) <= / 2000000 + bpow radix2 (-53))%R.
 Proof. exact entry_text_correct. Qed.
 
+(* a record made only of nucleotide letters has |s| + 1 - k valid windows; with C04_entries_sum_to_window_count this is
+   the relation the harness checks on records too long for the executable models (obig: entries sum to |s| + 1 - k) *)
+Theorem C04_clean_record_window_count :
+  forall k s, forallb (Kmer.clean digit_of_letter) s = true -> oligo_total_spec k s = (length s + 1 - k)%nat.
+Proof. exact clean_record_window_count. Qed.
+
 Theorem C04_all_zero_row_without_windows :
   forall k s, oligo_total_spec k s = 0%nat -> Forall (fun c => c = 0%nat) (oligo_counts_spec k s).
 Proof. exact oligo_spec_zero. Qed.
@@ -79,3 +85,4 @@ Print Assumptions C04_all_zero_row_without_windows.
 Print Assumptions C04_invariant_under_reverse_complement.
 Print Assumptions C04_invariant_under_case_and_U.
 Print Assumptions C04_printed_fraction_correct_to_six_decimals.
+Print Assumptions C04_clean_record_window_count.
